@@ -139,9 +139,11 @@ def batches(tier, seed):  # noqa: F811
     b = _orig_batches(tier, seed) + [('batch_pairs', [n, lo, lo + step, seed + lo]) for lo in range(0, total, step)]
     if tier == 'quick':
         b += [('batch_larger', ['random', seed * 3 + i, 40, 6, 16, 0]) for i in range(2)]
+        b += [('batch_larger', ['case', seed, 6, 0, 4, 0])]
         b += [('batch_larger', ['corpus', seed, 48, 0, 0, 150000, i, 2]) for i in range(2)]
     else:
         b += [('batch_larger', ['random', seed * 3 + i, 250, 6, 40, 0]) for i in range(8)]
+        b += [('batch_larger', ['case', seed + i, 12, 0, 5, 0]) for i in range(2)]
         b += [('batch_larger', ['corpus', seed, 100000, 0, 0, 10 ** 9, i, 16]) for i in range(16)]
     return b
 
